@@ -13,7 +13,7 @@ Results are appended to /verif/evidence/sensitivity.json.
 import json, os, re, subprocess, sys, time
 
 ROOT = os.path.dirname(os.path.abspath(__file__))
-SCRATCH = "/root/scratch"
+SCRATCH = os.path.join("/root/scratch", os.environ.get("SCRATCH_TAG", "mut0"))
 
 
 def sh(cmd, **kw):
